@@ -46,6 +46,7 @@ def filter_term(t):
         if k == 'not': return '(FNot %s)' % f(t[1])
         if k == 'panic': return 'FPanic'
         if k == 'nilfunc': return 'FNilFunc'
+        if k == 'first': return 'FFirst'
         raise C.CheckError('bad filter %r' % (t,))
     return '(Some %s)' % f(t)
 
@@ -119,6 +120,7 @@ def run(ctx):
     if strings[1:6] != ['reason_poisoned', 'topic_poisoned', 'handler_poisoned', 'subscriber_poisoned', 'cannot publish message to poison queue']:
         raise C.CheckError('interner does not start with the documented literals')
     res.extra['rendezvous_timeouts'] = data['timeouts']
+    res.extra['forced_overlaps'] = dict(batches_with_2_to_8_in_flight=data['batches'], all_parked_or_finished_together=data['batches_met'])
     for s in data['stray'] or []:
         res.violations.append(dict(signature='C13/stray-call', what='a collaborator (%s) was called outside the goroutine that handles the message' % s, case=dict(where=s)))
     good = []
@@ -140,7 +142,7 @@ def run(ctx):
             res.violations.append(dict(signature='C13/no-result', what='the chain result was not observed or names an unknown message', case=describe(c, strings)))
             continue
         if c['router'] and c['final'] == 0:
-            res.violations.append(dict(signature='C13/unsettled', what='message was not settled within 3 s', case=describe(c, strings)))
+            res.violations.append(dict(signature='C13/unsettled', what='message was not settled by the Router within 20 s', case=describe(c, strings)))
             continue
         good.append(c)
         pubs = [e for e in c['trace'] if e[0] == 'ppublish']
